@@ -124,6 +124,11 @@ def h_blockreduce(ctx):
                 ctx.assume(v > 0)
     arrs = [e, n, x] + data + (weights or [])
     arrs = [a.reshape(pshape) for a in arrs]
+    if cfg.get("mem"):
+        from symx.harness import relayout
+
+        # data / weights / extra coordinate in another memory layout than the horizontal coordinates
+        arrs = arrs[:2] + [relayout(a, cfg["mem"]) for a in arrs[2:]]
     for a in arrs:
         a.setflags(write=False)
     e2, n2, x2 = arrs[:3]
@@ -215,6 +220,8 @@ def _cfg(tier, seed):
     out.append({"shape": (1, 2), "members": [1, 0, 1], "ncomp": 2, "reduction": "average", "weighted": True, "center": True})
     out.append({"shape": (2, 2), "members": [3, 0, 3, 0], "ncomp": 2, "reduction": "sum", "weighted": False, "center": True, "pshape": (2, 2)})
     out.append({"shape": (1, 2), "members": [1, 0, 1, 1], "ncomp": 1, "reduction": "min", "weighted": False, "use_spacing": True, "drop": False, "pshape": (2, 2)})
+    out.append({"shape": (1, 2), "members": [1, 0, 0, 1], "ncomp": 2, "reduction": "average", "weighted": True, "drop": False, "pshape": (2, 2), "mem": "F"})
+    out.append({"shape": (2, 2), "members": [3, 0, 1, 0], "ncomp": 1, "reduction": "sum", "weighted": False, "pshape": (2, 2), "mem": "T"})
     if tier == "thorough":
         out.append({"shape": (2, 2), "members": [0, 3, 3, 1], "ncomp": 3, "reduction": "average", "weighted": True, "drop": False})
         out.append({"shape": (2, 2), "members": [0, 3, 3, 1], "ncomp": 3, "reduction": "median", "weighted": False, "center": True})
